@@ -80,18 +80,63 @@ def loop_carried_state(prog, rep, funcs, rule="LOOP-1"):
                     for k, m in n.succ:
                         if k != "exc":
                             stack.append(m)
+            # containers created before the loop, filled inside it and also read inside it (other than being filled): what one element put
+            # there is still in it when the next element is read. Result accumulators are only ever filled in the body.
+            for var, mut, rd in _carried_containers(g, header, body, assigned):
+                bad.append((var, rd, "is created before the loop over %s, filled inside it and read at `%s`: what the previous element put into it is still there"))
             inst = "%s: for %s in %s" % (func.short, unparse(header.ast.target), unparse(header.ast.iter)[:40])
             if not bad:
                 rep.ok(rule, inst, "%d locals assigned in the body, all initialised per iteration" % len(assigned),
                        where(func, header.ast))
-            for var, n in bad:
+            for item in bad:
+                var, n = item[0], item[1]
+                text = item[2] if len(item) > 2 else "is assigned inside the loop over %s but read at `%s` on a path where this iteration has not assigned it: " \
+                                                     "the value of the previous element leaks in"
                 rep.fail(rule, "%s|%s" % (func.short, var),
-                         "local '%s' is assigned inside the loop over %s but read at `%s` on a path where this "
-                         "iteration has not assigned it: the value of the previous element leaks in"
-                         % (var, unparse(header.ast.iter)[:40], unparse(n.ast).split("\n")[0][:60]),
+                         ("local '%s' " % var) + text % (unparse(header.ast.iter)[:40], unparse(n.ast).split("\n")[0][:60]),
                          where(func, n.ast),
                          witness="two sibling elements, the second lacking the sub-element that set '%s'" % var)
     return loops
+
+
+_FILLING = ("append", "add", "update", "extend", "setdefault", "insert", "__setitem__")
+
+
+def _carried_containers(g, header, body, assigned):
+    """(name, filling node, reading node) for locals that are not (re)bound in the loop body, are filled in it (x[k] = v, x.append(v), ...)
+    and are read in it by something other than such a filling statement"""
+    fills, reads = {}, {}
+    for n in body:
+        st = n.ast
+        if st is None or not isinstance(st, ast.AST):
+            continue
+        roots = [st] if n.kind == "stmt" else [getattr(st, "test", None)] if n.kind == "branch" else [getattr(st, "iter", None)] if n.kind == "for" else \
+            [getattr(st, "value", None)] if n.kind == "return" else []
+        filled_here = set()
+        skip = set()
+        for r in roots:
+            if r is None:
+                continue
+            for x in ast.walk(r):
+                if isinstance(x, ast.Subscript) and isinstance(x.ctx, ast.Store) and isinstance(x.value, ast.Name):
+                    filled_here.add(x.value.id)
+                    skip.add(id(x.value))
+                elif isinstance(x, ast.Call) and isinstance(x.func, ast.Attribute) and x.func.attr in _FILLING and isinstance(x.func.value, ast.Name):
+                    filled_here.add(x.func.value.id)
+                    skip.add(id(x.func.value))
+                elif isinstance(x, ast.Compare) and len(x.ops) == 1 and isinstance(x.ops[0], (ast.In, ast.NotIn)) and isinstance(x.comparators[0], ast.Name):
+                    skip.add(id(x.comparators[0]))      # `k in seen`: a repeated-key test of the element's own accumulator hands no content on
+            for x in ast.walk(r):
+                if isinstance(x, ast.Name) and isinstance(x.ctx, ast.Load) and id(x) not in skip:
+                    reads.setdefault(x.id, []).append(n)
+        for v in filled_here:
+            fills.setdefault(v, []).append(n)
+    out = []
+    for var in sorted(fills):
+        if var in assigned or var not in reads:
+            continue
+        out.append((var, fills[var][0], reads[var][0]))
+    return out
 
 
 def _self_accumulation(node, var):
